@@ -264,6 +264,8 @@ pub fn record(output: &str) {
             let mut lf: Joints = [-3.0, -1.7, -1.0, -3.4, -2.0, -6.0];
             let mut lt: Joints = [3.0, 1.9, 1.1, 3.4, 2.0, 6.0];
             for j in [0usize, 3, 5] { lf[j] = c0.home[j].min(g[j]) - 0.09; lt[j] = c0.home[j].max(g[j]) + 0.09; }
+            // (every second cell of this class writes the range of J6 as a wrap-around range: from > to, the same arc)
+            if nth % 2 == 1 { lt[5] -= 2.0 * std::f64::consts::PI; }
             narrow_limits = Some((lf, lt));
         }
         if obstacle_class == "start-collides" {
